@@ -38,6 +38,10 @@ f_insub = z3.Function("ed_insub", EPt, sym.Bool)
 f_diffok = z3.Function("ed_diff_ok", EPt, EPt, sym.Bool)
 c_O = z3.Const("ed_O", EPt)
 c_B = z3.Const("ed_B", EPt)
+# RFC 8032 base point (typed from the RFC, not read from the repository)
+B_X = 15112221349535400772501151409588531511454012693041857206046113283949847762202
+B_Y = 46316835694926478169428394003475163141307993866256225615783033603165251855960
+AUTO_ENC_INJ = [True]
 f_xrec = z3.Function("ed_xrecover", _I, _I)
 f_aed = z3.Function("ed_ae_from", _I, _I, EPt)      # try-and-increment: first good point at or after y+plus
 
@@ -91,7 +95,19 @@ def ed_O(ip):
 
 
 def ed_B(ip):
+    sym.FACTS.add(c_B == f_aff(IV(B_X), IV(B_Y)), "ed-B-is-the-RFC8032-base-point")
     return SPoint(c_B)
+
+
+def ed_disable_auto_injectivity(ip):
+    AUTO_ENC_INJ[0] = False
+    return True
+
+
+def ed_coords_determine_point(ip, P, R):
+    """points are pairs of affine coordinates: equal coordinates, equal points (definitional)"""
+    sym.FACTS.add(z3.Implies(z3.And(f_x(P.t) == f_x(R.t), f_y(P.t) == f_y(R.t)), P.t == R.t), "ed-point-ext")
+    return True
 
 
 def ed_aff(ip, x, y):
@@ -146,7 +162,7 @@ def ed_enc(ip, P):
     if sym.FACTS.reg("edenc", P.t):
         # the encoding of the identity (0,1), computed: le32(1)
         sym.FACTS.add(z3.Implies(P.t == c_O, t == sym.lit_bytes(b"\x01" + b"\x00" * 31)), "ed-enc-O (computed)")
-        for (R,) in sym.FACTS.items("edenc"):
+        for (R,) in (sym.FACTS.items("edenc") if AUTO_ENC_INJ[0] else []):
             if not R.eq(P.t):
                 t2 = ed_encode_xy(ip, mkint(f_x(R)), mkint(f_y(R))).t
                 sym.FACTS.add(z3.Implies(t == t2, P.t == R), "T1:ed_enc_injective")
@@ -198,3 +214,15 @@ def ed_ae_from(ip, y, plus):
         good = z3.And(on, P8 != c_O)
         sym.FACTS.add(t == z3.If(good, P8, f_aed(yt, pt + 1)), "ed-ae-unfold")
     return SPoint(t)
+
+
+def ed_Bx(ip):
+    return B_X
+
+
+def ed_By(ip):
+    return B_Y
+
+
+def mk_ept(ip, label):
+    return SPoint(_regpt(z3.Const(label, EPt)))
